@@ -42,6 +42,7 @@ import (
 	enc "github.com/named-data/ndnd/std/encoding"
 	"github.com/named-data/ndnd/std/ndn"
 	spec "github.com/named-data/ndnd/std/ndn/spec_2022"
+	"github.com/named-data/ndnd/std/security"
 	"github.com/named-data/ndnd/std/utils"
 
 	"verif/harness/c18/dvsim"
@@ -286,6 +287,7 @@ var (
 	kind string
 	uni  *universe
 	pend map[int][]dvsim.Pending // log histories: outstanding Interests per peer
+	pfxSeq uint64                // installer histories: sequence numbers of delivered prefix Data
 )
 
 func parseAdv(s string) *tlv.Advertisement {
@@ -430,14 +432,7 @@ func execFib(f []string) string {
 		if !ok || face == 0 {
 			return "skip"
 		}
-		ns := nt.Get(uni.rName[w])
-		if ns == nil {
-			ns = nt.Add(uni.rName[w])
-		}
-		if _, dirty := ns.RecvPing(face, act); dirty {
-			nd.R.VerifFibUpdate() // advertSyncOnInterest: go dv.fibUpdate()
-		}
-		sim.Settle()
+		sim.SyncInterest(0, uni.rName[w], face, act, 1) // real advertSyncOnInterest
 		return dumpFib()
 	case "adv", "advrace":
 		w, ok := wOf(f[1])
@@ -473,13 +468,23 @@ func execFib(f []string) string {
 		for _, id := range parseIds(f[4]) {
 			ops.PrefixOpRemoves = append(ops.PrefixOpRemoves, &tlv.PrefixOpRemove{Name: pfxName(id)})
 		}
-		parsed, err := tlv.ParsePrefixOpList(enc.NewWireReader(ops.Encode()), true)
+		// the op list arrives as prefix Data <x>/32=DV/32=PFX/seq=<n> and goes through the REAL processPrefixData
+		pfxSeq++
+		dname := append(uni.rName[x].Clone(),
+			enc.NewStringComponent(enc.TypeKeywordNameComponent, "DV"),
+			enc.NewStringComponent(enc.TypeKeywordNameComponent, "PFX"),
+			enc.NewSequenceNumComponent(pfxSeq))
+		sp := spec.Spec{}
+		ed, err := sp.MakeData(dname, &ndn.DataConfig{ContentType: utils.IdPtr(ndn.ContentTypeBlob),
+			Freshness: utils.IdPtr(time.Second)}, ops.Encode(), security.NewSha256Signer())
 		if err != nil {
-			panic("harness: prefix op list does not parse: " + err.Error())
+			panic("harness: MakeData: " + err.Error())
 		}
-		if nd.R.VerifPfx().Apply(parsed) {
-			nd.R.VerifFibUpdate() // processPrefixData: go dv.fibUpdate()
+		data, _, err := sp.ReadData(enc.NewWireReader(ed.Wire))
+		if err != nil {
+			panic("harness: ReadData: " + err.Error())
 		}
+		nd.R.VerifProcessPrefixData(data, nd.R.VerifPfx().GetRouter(uni.rName[x]))
 		sim.Settle()
 		return dumpFib()
 	case "fib":
